@@ -259,6 +259,37 @@ fn eph_draw(e: &Option<PrivateKey>, epk: &Option<PublicKey>) -> usize {
     if e.is_some() && epk.is_some() { 0 } else { 32 }
 }
 
+fn panic_class(msg: &str) -> &'static str {
+    if msg.starts_with("assertion") {
+        "assert"
+    } else if msg.starts_with("attempt to ") || msg.starts_with("capacity overflow") {
+        "arith"
+    } else if msg.starts_with("called `Result::unwrap()`") || msg.starts_with("called `Option::unwrap()`") {
+        "unwrap"
+    } else if msg.starts_with("index out of bounds")
+        || msg.starts_with("range ")
+        || msg.starts_with("slice index")
+        || msg.starts_with("source slice length")
+        || msg.starts_with("mid > len")
+    {
+        "index"
+    } else {
+        "other"
+    }
+}
+
+fn panic_report(e: Box<dyn std::any::Any + Send>) -> String {
+    let msg: String = if let Some(s) = e.downcast_ref::<&'static str>() {
+        s.to_string()
+    } else if let Some(s) = e.downcast_ref::<String>() {
+        s.clone()
+    } else {
+        String::new()
+    };
+    let m = msg.as_bytes();
+    format!("outcome=panic class={} msg={}", panic_class(&msg), hex(&m[..m.len().min(96)]))
+}
+
 fn run(a: &[&str]) -> String {
     match a[0] {
         "enc_chunks" => {
@@ -433,6 +464,18 @@ fn run(a: &[&str]) -> String {
             kc::verif_hooks::scrypt_smix(&mut b, r, n, &mut v, &mut x, &mut y);
             format!("outcome=ok out={}", hex(&b))
         }
+        // pc <op> <args..>: the op under its own catch_unwind, the panic classified by its message the way the model
+        // tags panics (Outcome.v: PAssert / PArith / PUnwrap / PSliceIndex): outcome=panic class=.. msg=<hex, <= 96 bytes>
+        "pc" => match catch_unwind(AssertUnwindSafe(|| run(&a[1..]))) {
+            Ok(s) => s,
+            Err(e) => panic_report(e),
+        },
+        // thr <op> <args..>: the op on a freshly spawned thread (joined before the reply); a panic that ends the
+        // thread is reported like pc's, from the payload join() hands over
+        "thr" => std::thread::scope(|sc| match sc.spawn(|| run(&a[1..])).join() {
+            Ok(s) => s,
+            Err(e) => panic_report(e),
+        }),
         op if op.starts_with("z_") => zero::run(a),
         op if op.starts_with("mem_") => mem::run(a),
         "c09mem" => c09mem::run(a),
